@@ -33,7 +33,7 @@ theorem slice_constructor_new_overflow {ε : Type} (message_id num_slices : Nat)
 theorem slice_constructor_process_slice (st : SliceConstructor) (hst : WfSC st) (slice_index : Nat) (bytes : List Nat)
     (hb : BytesOk bytes) :
     SameOutcome (SliceConstructor.process_slice st slice_index bytes)
-      (mapRes (fun r => (reprSC st.message_id r.1, r.2.map toNats)) reprCE
+      (mapRes (fun r => (reprSC st.message_id r.1, r.2.map toNats)) (fun e => (reprCE e, st))
         ((absSC st).processSlice slice_index (ofNats bytes))) := by
   have := process_slice_eq st.message_id (absSC st) slice_index (ofNats bytes) hst.2.1 hst.2.2
   rwa [reprSC_absSC st hst.1, toNats_ofNats hb] at this
@@ -42,17 +42,17 @@ theorem slice_constructor_process_slice (st : SliceConstructor) (hst : WfSC st) 
 theorem slice_constructor_process_slice' (message_id : Nat) (c : SliceCtor) (slice_index : Nat) (bytes : Bytes)
     (hn : c.numSlices * C.SLICE_SIZE < 2 ^ 64) (hr : c.numReceived + 1 < 2 ^ 64) :
     SameOutcome (SliceConstructor.process_slice (reprSC message_id c) slice_index (toNats bytes))
-      (mapRes (fun r => (reprSC message_id r.1, r.2.map toNats)) reprCE (c.processSlice slice_index bytes)) :=
+      (mapRes (fun r => (reprSC message_id r.1, r.2.map toNats)) (fun e => (reprCE e, reprSC message_id c)) (c.processSlice slice_index bytes)) :=
   process_slice_eq message_id c slice_index bytes hn hr
 
 /-- a 1-slice message of 3 bytes completes at once -/
 example :
     (SliceConstructor.new 9 1 >>= fun st => SliceConstructor.process_slice st 0 [1, 2, 3]) =
       .ok (⟨9, 1, 1, [true], []⟩, some [1, 2, 3]) := by decide +kernel
-/-- a wrong slice index is an error -/
+/-- a wrong slice index is an error; the error carries the (unchanged) constructor -/
 example :
     (SliceConstructor.new 9 1 >>= fun st => SliceConstructor.process_slice st 1 [1, 2, 3]) =
-      .err .InvalidSliceMessage := by decide +kernel
+      .err (.InvalidSliceMessage, ⟨9, 1, 0, [false], List.replicate 1200 0⟩) := by decide +kernel
 end C
 
 end RenetVerif.SrcTie
